@@ -159,7 +159,10 @@ def replay(args: list[Any], c: dict[str, Any]) -> dict[str, Any]:
             "sig": sig, "model_says": model_msg}
 
 
-if CFG:
-    run_model(CFG, events([0, 0, 1, 1, 2][:CFG["n"]], [0, 1, 1, 0, 1][:CFG["n"]]))
-else:
-    run_model({"n": 4, "batch": 2, "split": 2}, events([0, 0, 1, 1], [0, 1, 1, 0]))
+try:  # warm-up
+    if CFG:
+        run_model(CFG, events([0, 0, 1, 1, 2][:CFG["n"]], [0, 1, 1, 0, 1][:CFG["n"]]))
+    else:
+        run_model({"n": 4, "batch": 2, "split": 2}, events([0, 0, 1, 1], [0, 1, 1, 0]))
+except Exception:  # noqa  (a failing warm-up is reported by the conditions themselves)
+    pass
